@@ -117,6 +117,8 @@ class Address:
         else:  # len(device_id) == 10, e.g. 'CTL:123456', or ' 63:262142'
             dev_type = DEVICE_LOOKUP.get(device_id[:3], device_id[1:3])
 
+        if not (0 <= int(dev_type) < 2**6 and 0 <= int(device_id[-6:]) < 2**18):
+            raise ValueError(f"Invalid value: {device_id}, is out of range")  # else wraps
         return f"{(int(dev_type) << 18) + int(device_id[-6:]):0>6X}"  # no preceding 0x
 
     # @classmethod
@@ -149,6 +151,8 @@ def dev_id_to_hex_id(device_id: DeviceIdT) -> str:
     else:  # len(device_id) == 10, e.g. 'CTL:123456', or ' 63:262142'
         raise ValueError(f"Invalid value: {device_id}, is not 9-10 characters long")
 
+    if not (0 <= int(dev_type) < 2**6 and 0 <= int(device_id[-6:]) < 2**18):
+        raise ValueError(f"Invalid value: {device_id}, is out of range")  # else wraps
     return f"{(int(dev_type) << 18) + int(device_id[-6:]):0>6X}"
 
 
